@@ -319,7 +319,7 @@ int main(int argc, char** argv) {
   // one child per system so that every system starts from a fresh registry
   for (auto& s : e1_systems()) {
     if (!O.only.empty() && s.name != O.only) continue;
-    bool sel = (O.prop == "C09" || O.prop == "ALL" || O.prop == "C07" || s.prop == O.prop);
+    bool sel = (O.prop == "C09" || O.prop == "ALL" || s.prop == O.prop || std::find(s.extra_props.begin(), s.extra_props.end(), O.prop) != s.extra_props.end());
     if (!sel) continue;
     fflush(out);
     pid_t pid = fork();
